@@ -26,21 +26,23 @@ VARIABLES plan,   \* sequence of probes [r, when, at]
           bad,    \* violations predicted so far: <<inv, r, inst, nth>>
           fin     \* behaviour complete
 
+VARIABLE down     \* the agent refuses the executor's UPDATE calls (a fault the model does not depend on)
 VARIABLE usr      \* the task has a `user` configured (TaskCommandInfo.user): a configuration the model does not depend on
 
-gvars == <<vars, plan, deep, tmo, usr, pi, hist, bad, fin>>
+gvars == <<vars, plan, deep, tmo, usr, down, pi, hist, bad, fin>>
 
 Rank(w) == CASE w \in {"launching", "starting"} -> 0
              [] w \in {"nochild", "polling"} -> 1
              [] w = "running" -> 2
              [] w = "exiting" -> 3
-             [] OTHER -> 4
+             [] w = "reaped" -> 4
+             [] OTHER -> 5
 
 Whens(k, b) ==
   IF k = "ctl"
     THEN CASE b = "noready" -> {"starting"}
            [] b = "stuck" -> {"polling"}
-           [] b \in {"exit0", "exit3"} -> {"running", "exiting", "reaped"}
+           [] b \in {"exit0", "exit3"} -> {"running", "exiting", "reaped", "gone"}
            [] OTHER -> {"running"}      \* (sleep, ignore, fork, done0, done3, donesig, nodone)
     ELSE CASE b = "crash" -> {"launching", "nochild", "exiting", "reaped"}
            [] b \in {"exit0", "exit3", "fork"} -> {"launching", "nochild", "running", "exiting", "reaped"}
@@ -165,24 +167,26 @@ GenInit ==
   \* stop / kill of a running child, once more for a task with a configured user
   /\ usr \in (IF Len(plan) = 1 /\ plan[1].when = "running" /\ plan[1].r \in {"STOP", "Kill"}
                  /\ (kind # "ctl" \/ (~deep /\ beh \in {"sleep", "fork"})) THEN BOOLEAN ELSE {FALSE})
+  \* a request for a task whose terminal status the loop has processed, also with an agent that refuses the update
+  /\ down \in (IF ~deep /\ \E j \in 1..Len(plan) : plan[j].when = "gone" THEN BOOLEAN ELSE {FALSE})
   /\ pi = 1 /\ hist = <<>> /\ bad = {} /\ fin = FALSE
 
 GenStep ==
   /\ ~fin
   /\ LET c == Choice(S) IN
      IF c.a = "none" \/ c.succ = {}
-       THEN fin' = TRUE /\ UNCHANGED <<vars, plan, deep, tmo, usr, pi, hist, bad>>
+       THEN fin' = TRUE /\ UNCHANGED <<vars, plan, deep, tmo, usr, down, pi, hist, bad>>
        ELSE \E t \in c.succ :
               /\ Set(t)
               /\ hist' = Append(hist, [a |-> IF c.a = "Probe" THEN "Req" ELSE c.a, r |-> c.r])
               /\ pi' = IF c.a = "Probe" THEN pi + 1 ELSE pi
               /\ bad' = bad \cup ViolOf(t)
-              /\ UNCHANGED <<plan, deep, tmo, usr, fin>>
+              /\ UNCHANGED <<plan, deep, tmo, usr, down, fin>>
 
 GenSpec == GenInit /\ [][GenStep]_gvars
 
 Complete == fin /\ pi > Len(plan)
 PrintScn ==
-  Complete => PrintT(<<"SCN", [kind |-> kind, beh |-> beh, hold |-> hold, deep |-> deep, usr |-> usr, plan |-> plan,
+  Complete => PrintT(<<"SCN", [kind |-> kind, beh |-> beh, hold |-> hold, deep |-> deep, usr |-> usr, down |-> down, plan |-> plan,
                                hist |-> hist, bad |-> bad, exec |-> exec, sent |-> sent]>>)
 =============================================================================
